@@ -461,6 +461,47 @@ Section RepoParse.
   Qed.
 End RepoParse.
 
+(* Repository.ParseReference accepts EXACTLY: a tag; a digest; <dropped>@digest with a dropped part
+   free of '/' and '@'; or a fully qualified reference of the base with a non-empty reference *)
+Inductive RepoRefGrammar (valid_registry : str -> bool) (breg brepo : str) : str -> reference -> Prop :=
+| RGTag t : valid_tag t = true -> RepoRefGrammar valid_registry breg brepo t (mkRef breg brepo t)
+| RGDigest d : valid_digest d = true -> RepoRefGrammar valid_registry breg brepo d (mkRef breg brepo d)
+| RGDropped junk d :
+    contains c_slash junk = false -> contains c_at junk = false -> valid_digest d = true ->
+    RepoRefGrammar valid_registry breg brepo (junk ++ [c_at] ++ d) (mkRef breg brepo d)
+| RGFull s r :
+    Reference.parse avail valid_registry s = Some r -> r_registry r = breg -> r_repository r = brepo ->
+    r_reference r <> [] -> RepoRefGrammar valid_registry breg brepo s r.
+
+Theorem repo_parse_iff_grammar (valid_registry : str -> bool) breg brepo s r :
+  Reference.repo_parse avail valid_registry breg brepo s = Some r <-> RepoRefGrammar valid_registry breg brepo s r.
+Proof.
+  split.
+  - unfold Reference.repo_parse, repo_parse_gen.
+    destruct (Reference.parse avail valid_registry s) as [r0|] eqn:P.
+    + destruct (str_eqb (r_registry r0) breg && str_eqb (r_repository r0) brepo) eqn:E; [|discriminate].
+      apply andb_true_iff in E as [A B]. apply str_eqb_spec in A, B.
+      destruct (r_reference r0) eqn:R; [discriminate|]. intro H. injection H as <-.
+      apply RGFull; auto. rewrite R. discriminate.
+    + destruct (split_first c_at s) as [[j d]|] eqn:E.
+      * apply split_first_Some in E as [-> Hj].
+        destruct (contains c_slash j) eqn:Hs; [discriminate|]. simpl.
+        destruct (valid_digest d) eqn:V; [|discriminate]. simpl.
+        destruct d as [|x d]; [discriminate|]. intro H. injection H as <-.
+        now apply (RGDropped valid_registry breg brepo j (x :: d)).
+      * destruct (validate_reference s) eqn:V; [|discriminate]. simpl.
+        destruct s as [|x s]; [discriminate|]. intro H. injection H as <-.
+        unfold Reference.validate_reference in V. destruct (contains c_colon (x :: s)).
+        -- now apply RGDigest.
+        -- now apply RGTag.
+  - intros G. destruct G as [t Ht | d Hd | junk d Hs Ha Hd | s0 r0 P A B Hne].
+    + now apply repo_parse_tag.
+    + now apply repo_parse_digest.
+    + now apply repo_parse_tag_at_digest.
+    + unfold Reference.repo_parse, repo_parse_gen. rewrite P, A, B, !str_eqb_refl. simpl.
+      destruct (r_reference r0); [contradiction | reflexivity].
+Qed.
+
 Theorem repo_rejects_other_paths (valid_registry : str -> bool) breg brepo s r :
   Reference.repo_parse avail valid_registry breg brepo s = Some r -> contains c_slash s = true ->
   (Reference.parse avail valid_registry s = Some r /\ r_registry r = breg /\ r_repository r = brepo) /\
